@@ -96,8 +96,23 @@ def _flawed_units():
     ]
 
 
+def _reparse_unit():
+    """the flags handed down by the description stay on the tract when the tract is parsed again"""
+    from props import c14
+    return Unit(name='C10/Tract.parse[handed-down flags survive a re-parse]', prop='C10', target='props.c14:parse_twice',
+                params={'t': c14._tract_shape()}, setup_params=c14._install_stubs,
+                ensures=[('inherited_flags_still_present', lambda t, old_t:
+                          all([sum([1 for f in getattr(t, a) if f == getattr(old_t, a)[0]]) >= 1
+                               for a in ('w_flags', 'w_flag_lines', 'e_flags', 'e_flag_lines')])
+                          and is_flag_list_loose(t.w_flags, t.w_flag_lines))])
+
+
+def is_flag_list_loose(flags, lines):
+    return len(flags) == len(lines)
+
+
 def units():
-    return [_flags_unit(a) for a in ARRANGEMENTS] + _flawed_units()
+    return [_flags_unit(a) for a in ARRANGEMENTS] + _flawed_units() + [_reparse_unit()]
 
 
 # ======================================================================================================================
@@ -193,6 +208,13 @@ def _bounded_flags(tier, seed):
                 p = check_desc(d)
                 if p:
                     bad({'text': v, 'config': cfg}, p, 'well-typed, paired, shared flags')
+                if cfg in ('parse_qq', 'segment'):
+                    d.parse_tracts()
+                    d.parse_tracts(qq_depth=1)
+                    p = check_desc(d)
+                    ev += 1
+                    if p:
+                        bad({'text': v, 'config': cfg, 'then': 'parse_tracts() twice'}, p, 'flags still shared after re-parsing the tracts')
         # (2) trigger phrases at token boundaries
         for kind, phrases in TRIGGERS.items():
             phrase = rng.choice(phrases)
